@@ -256,6 +256,22 @@ def _topo_wrap(run, P):
     run.ob("C05.topo", f, w, exp_ok,
            construct="first visit: mark visited and visiting, then push the sorted dependencies",
            why="dependencies must be expanded exactly once, above the node on the stack")
+    # the walk starts from every root of the phase
+    ph = None
+    for s_ in ast.walk(f.node):
+        if isinstance(s_, ast.Assign) and len(s_.targets) == 1 and isinstance(s_.targets[0], ast.Name) \
+                and isinstance(s_.value, ast.Subscript) and dotted(s_.value.value) == f"{f.params[0]}.phases":
+            ph = s_.targets[0].id
+    seeds = [x for x in ast.walk(f.node) if isinstance(x, ast.Call)
+             and dotted(x.func) == f"{stack}.extend" and not any(
+                 x is y for y in ast.walk(w))]
+    seed_ok = ph is not None and len(seeds) == 1 and seeds[0].args \
+        and norm(seeds[0].args[0]) in (f"sorted({ph}.depends_on)", f"natsorted({ph}.depends_on)")
+    run.ob("C05.topo", f, seeds[0] if seeds else f.node, seed_ok,
+           construct=f"the stack is seeded with sorted(<phase>.depends_on): every root, unfiltered"
+                     + (f" (found: {norm(seeds[0].args[0], 80)})" if seeds and seeds[0].args and not seed_ok else ""),
+           why="a root that is left out (a no-op that only groups other statements, say) "
+               "takes everything reachable only through it out of the generated code")
     pop_ok = any(ast.unparse(s_) == f"{stack}.pop()" for s_ in outer_if.body)
     run.ob("C05.topo", f, w, pop_ok,
            construct="a visited id is popped on every path",
